@@ -17,10 +17,10 @@ T["t4"] = {"m.md": {"in.md": None}, "f.txt": None, "g": {"h": {"i": {"deep.md": 
 T["t5"] = {}
 ARGS = {
     "t1": ["a.md", "./a.md", "b.MD", "c.txt", "d", "d/", "./d", "d/.", "d//", "d/a.md", "d//a.md", "./d/a.md", "d/s", "d/s/q.md", "e", "missing", "missing.md", "d/missing.md",
-           ".", "./", "*", "*.md", "d/*", "d/*.md", "*/a.md", "?.md", "*/*", "./*", "*.zip", "d/?.md", "*/", "d/*/", "*/s/*.md", "a.md/", "d/s/", "**", "d/**"],
+           ".", "./", "*", "*.md", "d/*", "d/*.md", "*/a.md", "?.md", "*/*", "./*", "*.zip", "d/?.md", "*/", "d/*/", "*/s/*.md", "a.md/", "d/s/", "**", "d/**", "**/a.md", "d/**/q.md", "**/q.md", "d/**/a.md"],
     "t2": [".h.md", "n[1].md", "n1.md", "x*y.md", "e.md.bak", ".hd", ".hd/k.md", "d", ".", "*", "*.md", ".*", "n?.md", "x?y.md", ".*/*", "*/k.md", "n*", "?1.md", ".hd/*"],
-    "t3": ["d", "d/d", "./d/d/", "d/d/a.md", "a.md", "a", "a/a.md", "a*", "a?.md", "*/a.md", "*/*/a.md", "d/*", ".", "?", "*/d"],
-    "t4": ["m.md", "m.md/in.md", "m.md/", "f.txt", "g", "g/h/i", "g/h/i/deep.md", "*.md", "g/*", "g/*/*", "g/*/*/*", "*/*/*/*.md", "."],
+    "t3": ["d", "d/d", "./d/d/", "d/d/a.md", "a.md", "a", "a/a.md", "a*", "a?.md", "*/a.md", "*/*/a.md", "d/*", ".", "?", "*/d", "**/a.md", "d/**/a.md", "**/**/a.md"],
+    "t4": ["m.md", "m.md/in.md", "m.md/", "f.txt", "g", "g/h/i", "g/h/i/deep.md", "*.md", "g/*", "g/*/*", "g/*/*/*", "*/*/*/*.md", ".", "**/deep.md", "g/**/deep.md", "g/**"],
     "t5": [".", "*", "missing", "*.md"],
 }
 EXTS = {False: ".md", True: ".txt,.md"}
